@@ -26,6 +26,7 @@ import (
 	"sort"
 	"strings"
 	"time"
+	"unicode/utf8"
 
 	"github.com/gogo/protobuf/proto"
 	"github.com/golang/snappy"
@@ -265,7 +266,45 @@ func drainChunkSet(ss storage.ChunkSeriesSet) ([]cser, error) {
 
 // dict: the strings the generators use, defined once in the preamble of every case file (a
 // byte list literal costs Coq far more to parse than an identifier).
-var dict = []string{"__name__", "job", "inst", "m0", "m1", "a", "b", "c", "0", "1", "22", "zone", "x", "zz", "aaa", "k", "", "zzz", "2"}
+var dict = []string{"__name__", "job", "inst", "m0", "m1", "a", "b", "c", "0", "1", "22", "zone", "x", "zz", "aaa", "k", "", "zzz", "2",
+	"service.name", "k8s-pod", "région", "my label", "9lives", "😀", "http.requests", "mé tric-1", "0up", "🔥", "é", "k8s.cluster"}
+
+// label names / metric names that are valid only under the UTF-8 naming scheme (not "legacy")
+var u8names = []string{"service.name", "k8s-pod", "région", "my label", "9lives", "😀"}
+var u8metrics = []string{"http.requests", "mé tric-1", "0up", "🔥"}
+
+func legacyName(s string) bool {
+	for i, c := range []byte(s) {
+		if !(c == '_' || (c >= 'a' && c <= 'z') || (c >= 'A' && c <= 'Z') || (i > 0 && c >= '0' && c <= '9')) {
+			return false
+		}
+	}
+	return s != ""
+}
+
+// nameClasses: does the result use non-legacy names, and names/values invalid under both schemes
+func nameClasses(l []ser) (u8, bad bool) {
+	for _, s := range l {
+		for _, p := range s.L {
+			v := p[1]
+			if p[0] == "__name__" {
+				// a metric name may also contain ':' under the legacy scheme
+				if !legacyName(strings.ReplaceAll(v, ":", "_")) {
+					u8 = true
+				}
+				if v == "" {
+					bad = true
+				}
+			} else if !legacyName(p[0]) {
+				u8 = true
+			}
+			if p[0] == "" || !utf8.ValidString(p[0]) || !utf8.ValidString(v) {
+				bad = true
+			}
+		}
+	}
+	return u8, bad
+}
 
 func dictPreamble() string {
 	var sb strings.Builder
@@ -384,6 +423,8 @@ func gObs(o obs) string {
 		return "(ObsOk " + gSeries(o.L) + ")"
 	case "limit":
 		return "ObsErrLimit"
+	case "invalid":
+		return "ObsErrInvalid"
 	case "skip":
 		return "ObsSkip"
 	}
@@ -606,6 +647,9 @@ func (r *rig) readSet(ss storage.SeriesSet) obs {
 		if strings.Contains(err.Error(), "exceeded sample limit") {
 			return obs{Kind: "limit", Err: err.Error()}
 		}
+		if strings.Contains(err.Error(), "invalid label name") || strings.Contains(err.Error(), "invalid label value") || strings.Contains(err.Error(), "invalid metric name") {
+			return obs{Kind: "invalid", Err: err.Error()}
+		}
 		return obs{Kind: "other", Err: err.Error(), L: l}
 	}
 	if len(seekErr) > 0 || len(probes) > 0 {
@@ -750,6 +794,9 @@ func openStore(dir string, r *gen.Rand) (*store, error) {
 		return nil, err
 	}
 	st := &store{db: db, names: []string{"m0", "m1"}, jobs: []string{"a", "b", "c"}}
+	if r.Chance(1, 2) { // a metric name that is valid only under the UTF-8 scheme
+		st.names = append(st.names, gen.Pick(r, u8metrics))
+	}
 	nSeries := int(r.Range(1, 5))
 	seen := map[string]bool{}
 	var all []pend
@@ -762,6 +809,9 @@ func openStore(dir string, r *gen.Rand) (*store, error) {
 		b.Set("job", gen.Pick(r, st.jobs))
 		if r.Chance(1, 2) {
 			b.Set("inst", gen.Pick(r, []string{"0", "1", "22"}))
+		}
+		if r.Chance(1, 3) { // a label name that is valid only under the UTF-8 scheme
+			b.Set(gen.Pick(r, u8names), gen.Pick(r, []string{"x", "1", "é"}))
 		}
 		l := b.Labels()
 		if seen[l.String()] {
@@ -1147,6 +1197,33 @@ func runCorpus(f gallina.Flags, meta *gallina.Meta, cf *gallina.CaseFile, rg *ri
 		{name: "schemas-tsdb", mint: 0, maxt: 1000, ms: all, maxBytes: 1 << 20, probes: schemaProbes},
 		{name: "schemas-tsdb-untrimmed-cut", mint: 105, maxt: 125, ms: all, maxBytes: 1 << 20, untrimmed: true, probes: schemaProbes},
 	}})
+	// label names and metric names that are valid only under the UTF-8 naming scheme, and (second
+	// storage) names / values that are invalid under both: the TSDB stores them all
+	var u8s []pend
+	for vi, n := range u8names {
+		l := labels.FromStrings("__name__", "m0", "job", "a", n, []string{"x", "é"}[vi%2])
+		u8s = append(u8s, pend{l: l, t: 10 + int64(vi), v: 1}, pend{l: l, t: 30 + int64(vi), v: 2})
+	}
+	for vi, n := range u8metrics {
+		l := labels.FromStrings("__name__", n, "job", "b")
+		u8s = append(u8s, pend{l: l, t: 20 + int64(vi), v: 3}, pend{l: l, t: 40 + int64(vi), v: 4})
+	}
+	sort.SliceStable(u8s, func(i, j int) bool { return u8s[i].t < u8s[j].t })
+	fx = append(fx, fixed{"corpus: UTF-8-only label names and metric names", 120, u8s, []qparams{
+		{name: "utf8-names", mint: 0, maxt: 100, ms: all, maxBytes: 1 << 20, sortSeries: true},
+		{name: "utf8-names-matcher-ext", mint: 0, maxt: 100, ms: []*labels.Matcher{labels.MustNewMatcher(labels.MatchEqual, "service.name", "x")}, maxBytes: 1 << 20, ext: labels.FromStrings("k8s.cluster", "x")},
+		{name: "utf8-metric-matcher", mint: 0, maxt: 100, ms: []*labels.Matcher{labels.MustNewMatcher(labels.MatchRegexp, "__name__", "http.+|mé.*|0up|🔥")}, maxBytes: 1, sortSeries: false},
+	}})
+	badS := []pend{
+		{l: labels.FromStrings("__name__", "m0", "job", "a", "bad\xffname", "x"), t: 10, v: 1},
+		{l: labels.FromStrings("__name__", "m0", "job", "b", "inst", "bad\xfe"), t: 20, v: 2},
+		{l: labels.FromStrings("__name__", "m0", "job", "c"), t: 30, v: 3},
+	}
+	fx = append(fx, fixed{"corpus: label name / value that is not valid UTF-8", 120, badS, []qparams{
+		{name: "invalid-utf8-name-and-value", mint: 0, maxt: 100, ms: all, maxBytes: 1 << 20},
+		{name: "invalid-utf8-name-only", mint: 0, maxt: 100, ms: []*labels.Matcher{labels.MustNewMatcher(labels.MatchEqual, "job", "a")}, maxBytes: 1 << 20},
+		{name: "invalid-utf8-not-selected", mint: 0, maxt: 100, ms: []*labels.Matcher{labels.MustNewMatcher(labels.MatchEqual, "job", "c")}, maxBytes: 1 << 20},
+	}})
 	for i, c := range fx {
 		dir, err := os.MkdirTemp(f.Out, "c42corpus")
 		if err != nil {
@@ -1409,6 +1486,8 @@ func runCase(f gallina.Flags, meta *gallina.Meta, cf *gallina.CaseFile, rg *rig,
 		ext = labels.FromStrings("job", "zz") // clashes with a series label: the series' value wins
 	case 2:
 		ext = labels.FromStrings("aaa", "1", "k", "", "zzz", "2")
+	case 3:
+		ext = labels.FromStrings("k8s.cluster", "x", "région", "1") // UTF-8 names; "région" may clash with a series label
 	}
 
 	// the serving side's storage: the DB itself (its chunk querier trims the chunks to the
@@ -1506,7 +1585,7 @@ func runCase(f gallina.Flags, meta *gallina.Meta, cf *gallina.CaseFile, rg *rig,
 	// stored series: then the two sides legitimately talk about different series)
 	qchunked := r.Bool()
 	querier := obs{Kind: "skip"}
-	if ext.Get("job") == "" {
+	if ext.Get("job") == "" && ext.Get("région") == "" {
 		cl := rg.sampled
 		if qchunked {
 			cl = rg.chunked
@@ -1581,10 +1660,17 @@ func runCase(f gallina.Flags, meta *gallina.Meta, cf *gallina.CaseFile, rg *rig,
 
 	// ---- which half of the statement fails, and is it one of the explained shapes
 	want := canon(withExt(direct, ext))
+	u8, bad := nameClasses(withExt(direct, ext))
+	hit(u8, "utf8-only-names")
+	hit(bad, "names-invalid-under-both-schemes")
 	var why []string
 	if limit > 0 && total > limit {
 		if sampled.Kind != "limit" {
 			why = append(why, "sampled-limit-not-enforced")
+		}
+	} else if bad {
+		if sampled.Kind != "invalid" {
+			why = append(why, "sampled-invalid-labels-accepted")
 		}
 	} else if sampled.Kind != "ok" || !equalSeries(canon(sampled.L), want) {
 		if sampled.Kind == "ok" && hasNegZero(direct) && equalSeries(canon(sampled.L), posZero(want)) {
@@ -1617,6 +1703,10 @@ func runCase(f gallina.Flags, meta *gallina.Meta, cf *gallina.CaseFile, rg *rig,
 		case !qchunked && limit > 0 && total > limit:
 			if querier.Kind != "limit" {
 				add("querier-limit-not-enforced")
+			}
+		case !qchunked && bad:
+			if querier.Kind != "invalid" {
+				add("querier-invalid-labels-accepted")
 			}
 		case querier.Kind == "ok" && equalSeries(canon(querier.L), wantQ):
 		case querier.Kind == "ok" && qchunked && split && equalSeries(canon(glue(querier.L)), wantQ):
@@ -1676,10 +1766,10 @@ func runCase(f gallina.Flags, meta *gallina.Meta, cf *gallina.CaseFile, rg *rig,
 	}
 	meta.Dist["seek-probes"] += len(sampled.Probes)
 
-	cf.Add(fmt.Sprintf("mkCase %s %s %s %d %d %s %s\n %s\n %s\n %s\n %s\n %s\n %s %s %s\n %s",
+	cf.Add(fmt.Sprintf("mkCase %s %s %s %d %d %s %s\n %s\n %s\n %s\n %s\n %s\n %s %s %s\n %s %s",
 		gallina.Z(int64(*id)), gallina.Z(mint), gallina.Z(maxt), maxBytes, limit, gallina.Bool(sortSeries), gLabels(lblPairs(ext)),
 		gSeries(direct), gCSeries(chunks), gObs(sampled), gFrames(frames), gObs(chunked),
-		gallina.Bool(qchunked), gallina.List(mnames), gObs(querier), gProbes(sampled.Probes)))
+		gallina.Bool(qchunked), gallina.List(mnames), gObs(querier), gProbes(sampled.Probes), gallina.Bool(bad)))
 	so := sampled.Kind
 	if sampled.Err != "" {
 		so += ": " + sampled.Err
